@@ -219,7 +219,9 @@ pub fn gen_lef_for_import(t: &mut Tape) -> lef21::LefLibrary {
     for mi in 0..t.range(1, 3) {
         let mut m = LefMacro::new(format!("macro{}", mi));
         m.size = Some((LefDecimal::new(t.range(1, 5000) as i64, 2), LefDecimal::new(t.range(1, 5000) as i64, 2)));
-        for pi in 0..t.range(1, 4) {
+        // sometimes no pins at all, so that exporters get as far as the obstructions
+        let npins = if t.chance(1, 4) { 0 } else { t.range(1, 4) };
+        for pi in 0..npins {
             let mut pin = LefPin::default();
             pin.name = format!("pin{}", pi);
             let nports = t.range(1, 2);
